@@ -8,7 +8,7 @@ ID = 'C04'
 LEVEL = 'proof'
 RULE = ('corpus; exhaustive scope: every 3-valued surface on the grids 1x1..2x3 (and 3x1, 3x2) x every marker '
         'placement with labels in {0,1,2} x {cross, box}, return_lines=True (thorough: all; quick: a seeded slice of '
-        'whole surfaces); random 1-3 D surfaces in bool/8 integer/2 float dtypes x 7 layouts of surface and of markers, '
+        'whole surfaces); random 1-3 D surfaces in bool/8 integer/3 float dtypes x 7 layouts of surface and of markers, '
         'markers none/one/touching/border/dense (also negative labels), neighbourhoods None/int/cross/box/5x5/5x5x5/random '
         'boolean/even-sized/wider than the image, plateaus and ties. Every real call is made twice with the heap '
         'pre-dirtied by two different byte patterns (numpy small-block cache and glibc M_PERTURB), so an output cell '
@@ -19,11 +19,13 @@ ASSUMPTIONS = ['surface values are not NaN (no strict weak order otherwise); flo
                'markers are integer images of the shape of the surface (morph.py rejects anything else); labels fit int64',
                'the neighbourhood is the set of non-zero entries of Bc after the cast to the surface dtype that '
                'get_structuring_elem performs',
-               'array sizes < 2^31 (pos_to_flat/flat_to_pos use int)']
+               'array sizes < 2^31 (pos_to_flat/flat_to_pos use int)',
+               'float16 surfaces are rejected by mahotas with an explicit TypeError (documented); complex has no order']
 EXHAUSTIVE = {'thorough': True}
 TRUSTED = ['numpy (array construction, layout views, unique for float ranks)']
 
-SURF_DTYPES = ['bool', 'uint8', 'uint16', 'uint32', 'uint64', 'int8', 'int16', 'int32', 'int64', 'float32', 'float64']
+SURF_DTYPES = ['bool', 'uint8', 'uint16', 'uint32', 'uint64', 'int8', 'int16', 'int32', 'int64', 'float32', 'float64',
+               'longdouble']
 MARK_DTYPES = ['int64', 'int32', 'uint8', 'int8', 'uint16', 'bool', 'int16', 'uint32']
 
 _libc = None
